@@ -21,6 +21,7 @@ type replWorkload struct {
 	JoinAt          int64
 	EndAt           int64
 	LeaderMod       func(c *hapi.Config)
+	FollowerMod     func(c *hapi.Config)
 	Stale           bool // the follower starts from a stale directory (it had synced an earlier prefix, then was down)
 	Burst           int  // >0: at BurstAt the leader->follower stream is held back, Burst records are produced, then the stream is released at once
 	BurstAt         int64
@@ -63,6 +64,17 @@ func c09Workloads(quick bool) []replWorkload {
 	}
 	ws = append(ws, replWorkload{Name: "empty-ring-started-frame-late", Steps: late, RestartLeaderAt: 2500 * ms, JoinAt: 3800 * ms, HoldStarted: 8 * sec, EndAt: 30 * sec, Sparse: true, CutStride: 401,
 		LeaderMod: func(c *hapi.Config) { c.RingSz = 1024; c.RingMaxSz = 64 << 20 }})
+	// three rotations before the follower joins; the records of the second file are all released again, so the
+	// compacted file only holds records of file 1 while the leader writes file 4
+	var gap []TStep
+	for i := 0; i < 3; i++ {
+		gap = append(gap, at(1500*ms+int64(i)*50*ms, z(hapi.Cmd{Type: 1, Req: byte(1 + i), Key: byte(1 + i), Id: 1, Expried: 600})))
+		gap = append(gap, at(2500*ms+int64(i)*50*ms, z(hapi.Cmd{Type: 1, Req: byte(11 + i), Key: byte(11 + i), Id: 1, Expried: 600})))
+		gap = append(gap, at(3500*ms+int64(i)*50*ms, hapi.Cmd{Type: 2, Req: byte(21 + i), Key: byte(11 + i), Id: 1}))
+	}
+	gap = append(gap, at(8000*ms, z(hapi.Cmd{Type: 1, Req: 40, Key: 40, Id: 1, Expried: 600})))
+	small := func(c *hapi.Config) { c.RewriteSz = 12 + 64*3; c.FileBuf = 64 }
+	ws = append(ws, replWorkload{Name: "rotations-before-join", Steps: gap, JoinAt: 5000 * ms, EndAt: 30 * sec, LeaderMod: small, FollowerMod: small, Sparse: true, CutStride: 7})
 	// a slow follower: 600 records become readable at once (more than the follower's 256 receive buffers)
 	ws = append(ws, replWorkload{Name: "burst-of-600-records", Steps: base, JoinAt: 2500 * ms, EndAt: 40 * sec, Burst: 600, BurstAt: 12 * sec, Sparse: true})
 	// values larger than the sender's 4096-byte batch buffer, right behind small records about the same key: a
@@ -96,6 +108,10 @@ func c09Workloads(quick bool) []replWorkload {
 
 type replOutcome struct {
 	Leader, Follower string
+	Restarted        bool   // the follower was stopped and started again on its own directory at the end
+	RestartErr       string // that start failed
+	Leader2          string // leader / follower 5 s after that start
+	Follower2        string
 	StreamBytes      int   // leader->follower bytes on the first replication link
 	Links            int   // replication links the follower opened
 	Boundaries       []int // offsets at which the leader's writes on the first link ended
@@ -104,7 +120,11 @@ type replOutcome struct {
 
 // runRepl executes the workload with the first replication link cut after cut1 leader->follower bytes
 // (cut1 < 0: no cut) and the second after cut2 bytes.
-func runRepl(w *replWorkload, cut1, cut2 int) replOutcome {
+func runRepl(w *replWorkload, cut1, cut2 int) replOutcome { return runReplEx(w, cut1, cut2, false) }
+
+// runReplEx: with restartFollower the follower is stopped cleanly at the end and started again on the directory
+// its own synchronisation produced.
+func runReplEx(w *replWorkload, cut1, cut2 int, restartFollower bool) replOutcome {
 	var out replOutcome
 	rt := vrt.Run(vrt.Options{MaxPoints: 600_000_000}, func() {
 		lc := hapi.Config{Name: "n0", Port: 5658, FastKeys: 4, Concurrent: 1}
@@ -145,6 +165,9 @@ func runRepl(w *replWorkload, cut1, cut2 int) replOutcome {
 		sort.SliceStable(steps, func(i, j int) bool { return steps[i].At < steps[j].At })
 		join := func() {
 			fc := hapi.Config{Name: "n1", Port: 5659, FastKeys: 4, Concurrent: 1, SlaveOf: nodeAddr(0)}
+			if w.FollowerMod != nil {
+				w.FollowerMod(&fc)
+			}
 			follower = hapi.Factories["n1"](fc)
 			if err := follower.Start(); err != nil {
 				out.Err = "follower start: " + err.Error()
@@ -228,6 +251,25 @@ func runRepl(w *replWorkload, cut1, cut2 int) replOutcome {
 		out.Follower = holdsOnly(follower.Snapshot())
 		if first != nil {
 			out.StreamBytes = first.BtoA.Written
+		}
+		if restartFollower {
+			out.Restarted = true
+			follower.Poke("flushaof")
+			vrt.Quiesce()
+			vrt.KillGroup("n1")
+			vrt.AdvanceTo(vrt.Elapsed() + 500*ms)
+			fc := hapi.Config{Name: "n1", Port: 5659, FastKeys: 4, Concurrent: 1, SlaveOf: nodeAddr(0)}
+			if w.FollowerMod != nil {
+				w.FollowerMod(&fc)
+			}
+			f2 := hapi.Factories["n1"](fc)
+			if err := f2.Start(); err != nil {
+				out.RestartErr = err.Error()
+				return
+			}
+			vrt.AdvanceTo(vrt.Elapsed() + 5*sec)
+			out.Leader2 = holdsOnly(leader.Snapshot())
+			out.Follower2 = holdsOnly(f2.Snapshot())
 		}
 	})
 	if rt.Crash != nil {
@@ -351,10 +393,16 @@ func evalC09(c *Ctx, cs EnumCase) EnumResult {
 		distinct[fmt.Sprintf("%d|%s", o.Links, o.Follower)] = true
 		if !sameHolds(o.Leader, o.Follower) {
 			vs = append(vs, explore.Violation{Sig: "C09:follower-differs-from-leader", Msg: fmt.Sprintf("%s: once the leader is quiescent it holds [%s] but the follower holds [%s] (%d replication links were opened)", what, o.Leader, o.Follower, o.Links)})
+		} else if o.Restarted {
+			if o.RestartErr != "" {
+				vs = append(vs, explore.Violation{Sig: "C09:follower-cannot-restart", Msg: fmt.Sprintf("%s: the follower, stopped cleanly and started again on the directory its own synchronisation produced, does not start: %s", what, o.RestartErr)})
+			} else if !sameHolds(o.Leader2, o.Follower2) {
+				vs = append(vs, explore.Violation{Sig: "C09:follower-differs-after-restart", Msg: fmt.Sprintf("%s: 5 s after the follower was restarted on its own directory the leader holds [%s] but the follower holds [%s]", what, o.Leader2, o.Follower2)})
+			}
 		}
 	}
 	if a.From < 0 {
-		o := runRepl(&w, -1, -1)
+		o := runReplEx(&w, -1, -1, true)
 		if a.To < 0 {
 			return EnumResult{Err: fmt.Sprintf("workload %s: baseline run unusable: %s (stream %d bytes)", w.Name, o.Err, o.StreamBytes)}
 		}
